@@ -59,6 +59,9 @@ def result_of(kind, kw):
         return bool(n & 1)
     if kind == "str":
         return canon_kw(kw)
+    if kind == "huge":
+        # more than a MiB in one contiguous buffer
+        return np.arange(140000, dtype=float) + (n % 4096)
     if kind == "big":
         # > 8 KiB per batch of a few settings: several buffered-write chunks
         return (canon_kw(kw) + "|") * 300
@@ -98,7 +101,23 @@ def record_fn(_xv=("int", None), **kw):
     """Module-level (hence picklable) recording function.  ``_xv`` is bound
     with functools.partial: (result kind, log file or None)."""
     kind, logfile = _xv[:2]
-    if len(_xv) > 2 and _xv[2]:
+    if len(_xv) > 2 and isinstance(_xv[2], (list, tuple)) and \
+            _xv[2] and _xv[2][0] == "hold":
+        # ("hold", yield path, a file, actor name): the named actor stays in
+        # here - letting everybody else run - until the file is gone
+        import threading
+        _, ypath, gone, who = _xv[2]
+        os.path.exists(ypath)
+        if threading.current_thread().name == who:
+            for _ in range(400):
+                if not os.path.lexists(gone):
+                    break
+                os.path.exists(ypath)
+    elif len(_xv) > 2 and isinstance(_xv[2], str):
+        # a path to look at: under a harness-owned scheduler that is a point
+        # at which the function can be overtaken by the other actors
+        os.path.exists(_xv[2])
+    elif len(_xv) > 2 and _xv[2]:
         # (delay, n): earlier settings take longer, so that anything
         # collecting results in completion order gets them reversed
         import time
